@@ -54,6 +54,7 @@ theorem offer_resFor (f : Frame) (sb : Nat) (r : Res) (h : f.offer = some (sb, r
     obtain ⟨rfl, rfl⟩ := h
     simp [ResFor]
   · simp at h
+  · simp at h
 
 theorem chanOk_apply (c : Cfg) (a : Action) (he : enabled c a = true) (hp : ∀ j, PcOk (c.s j)) (hr : RegOk c)
     (h : ∀ j, ChanOk (c.s j)) : ∀ j, ChanOk ((apply c a).s j) := by
